@@ -204,7 +204,8 @@ pub fn encode(msg: &Msg) -> Encoded {
                     port: *port,
                 }),
                 want_writes: Some(vec![]),
-                want_repr_contains: vec![format!("cmd: {}", cd)],
+                // the reader maps the version-4 grant (90) to the common success code 0; other codes are kept
+                want_repr_contains: vec![format!("cmd: {}", if *cd == 90 { 0 } else { *cd })],
                 frame_lens: vec![],
                 framed_stream: false,
             }
